@@ -12,6 +12,10 @@ ASSUMPTIONS = [
     "leg A: all histories of <= 3 saves (+ loads) over 2 directory names x 2 models x both storage modes; mkdir(exist_ok=True) is a named wrong design that must be caught",
     "leg C: TLC (-simulate) generates save/load histories over 3 names x 4 models; equal abstract names are forced to collide by pinning the harness-side clock the directory name is derived from; scratch directories live under /verif/.work and are removed",
     "only built-in mixtures can be re-loaded by name (the file stores the mixture name)",
+    "membrane directories (tla/Loader.tla): TLC enumerates all 102 layouts of ideal_experiments.csv x diffusion_curve_sets/ (entries good / wrong "
+    "columns / ignorable) x results/ and simulates histories of directory edits and loads; each is built on disk and loaded with the public "
+    "Membrane.load; curves written by the public writer must come back unchanged (clause); outcome, returned object, 'a load only ever adds "
+    "results/' and idempotence are compared with the specification as DRIFT (they are not clauses of C17)",
 ]
 CLAUSES = {
     "Cl_OldDirsImmutable": "every file present before a save is present and unchanged after it",
@@ -19,6 +23,7 @@ CLAUSES = {
     "Cl_RoundTripModel": "process model: every persisted numeric field equal to 1e-9, same mixture, units, permeate condition, lengths, conditions, fits",
     "Cl_RoundTripCurve": "diffusion curve: fields equal, physically identical compositions", "Cl_ReloadIsMassFraction": "curves / models re-load as mass fractions",
     "Cl_RoundTripFunction": "permeance function, binary and JSON", "Cl_RoundTripConditions": "initial conditions, JSON",
+    "Cl_RoundTripCurveViaMembrane": "curve sets written with the public writer into a membrane directory come back unchanged through Membrane.load",
 }
 MANIFEST = {
     "text": "TLC model-checks the results store tla/Store.tla (existing directories immutable, fresh directory or raise, round trip; "
@@ -33,7 +38,57 @@ MANIFEST = {
 def leg_a(ctx):
     return [{"spec": "MC_Store.tla", "cfg": "MC_Store.cfg", "coverage": True, "workers": 2,
              "what": "all histories of <= 3 saves and any loads over 2 names x 2 models x safe/unsafe"},
-            {"spec": "MC_Store.tla", "cfg": "MC_Store_neg_overwrite.cfg", "expect": "violates:OldDirsImmutable,FreshDirOrRaise", "workers": 2}]
+            {"spec": "MC_Store.tla", "cfg": "MC_Store_neg_overwrite.cfg", "expect": "violates:OldDirsImmutable,FreshDirOrRaise", "workers": 2},
+            {"spec": "MC_Loader.tla", "cfg": "MC_Loader.cfg", "coverage": True, "workers": 2,
+             "what": "membrane directory: all histories of <= 5 edits/loads over 2 curve-set entries x {good, wrong columns, ignorable}"},
+            {"spec": "MC_Loader.tla", "cfg": "MC_Loader_neg_mkdir.cfg", "expect": "violates:LoadOnlyAddsResults", "workers": 2}]
+
+
+def loader_leg(ctx, pool, scratch):
+    """membrane directories: TLC's layout table and simulated edit/load histories, replayed with Membrane.load"""
+    lay_file = os.path.join(ctx.work, "layouts.ndjson")
+    r = tlc.run("MC_Loader.tla", "MC_Loader.cfg", workers=2, env={"LAYOUT_FILE": lay_file}, workdir=ctx.work)
+    if not r.ok:
+        raise core.MachineryFailure("MC_Loader failed: %s %s" % (r.violated_names(), r.errors[:2]))
+    rows = [json.loads(x) for x in open(lay_file) if x.strip()]
+    nh = ctx.n(60, 1500)
+    rs = tlc.run("MC_LoaderSim.tla", "MC_LoaderSim.cfg", workers=1, workdir=ctx.work,
+                 extra=("-simulate", "num=%d" % nh, "-depth", "14", "-seed", str(ctx.seed + 11)))
+    hs, seen = [], set()
+    for ln in rs.printed:
+        m = re.match(r'^<<"HISTORY", "(.*)">>$', ln)
+        if m and m.group(1) not in seen:
+            seen.add(m.group(1))
+            hs.append(json.loads(m.group(1).replace('\\"', '"')))
+    if not hs:
+        raise core.MachineryFailure("TLC simulation produced no loader histories: %s" % (rs.errors[:2] or rs.out[-400:]))
+    reps = ctx.n(1, 6)
+    allrows = rows * reps
+    per_r, per_h = max(1, len(allrows) // 16), max(1, len(hs) // 16)
+    jobs = [(ctx.seed * 60013 + j, allrows[j * per_r:(j + 1) * per_r], hs[j * per_h:(j + 1) * per_h], scratch) for j in range(17)]
+    tw = TraceWriter()
+    for traces in core.parallel("harness.rec_loader", "loader_job", jobs):
+        tw.traces.extend(traces)
+    res = core.validate_traces(None, ctx, tw, pool, "Trace_Loader.tla", "Trace_Loader.cfg", tag="loader")
+    res["failures"] = []
+    done = set()
+    for tr in tw.traces:
+        if tr[0].get("source") == "layout":
+            f = tr[1]["fs"]
+            done.add((f["csv"], f["hasSets"], f["results"], tuple((e["name"], e["kind"]) for e in f["entries"])))
+    want = {(w["csv"], w["hasSets"], w["results"], tuple(sorted((e["name"], e["kind"]) for e in w["entries"]))) for w in rows}
+    if len(rows) != 102:
+        res["failures"].append("expected 102 membrane-directory layouts from TLC, got %d" % len(rows))
+    if want - done:
+        res["failures"].append("layout rows without an execution: %s" % sorted(want - done)[:3])
+    loads = [e for tr in tw.traces for e in tr if e.get("ev") == "Load"]
+    outcomes = {}
+    for e in loads:
+        outcomes[e["outcome"]] = outcomes.get(e["outcome"], 0) + 1
+    cov = {"layout_rows": len(rows), "layout_rows_covered": len(want & done), "tlc_generated_histories": len(hs), "loads": len(loads),
+           "outcomes": outcomes, "curves_round_tripped": sum(len(e["curves_orig"]) for e in loads),
+           "spec_states": r.distinct}
+    return res, cov
 
 
 def run(ctx, pool):
@@ -57,6 +112,11 @@ def run(ctx, pool):
         tw.traces.extend(traces)
     shutil.rmtree(scratch, ignore_errors=True)
     res = core.validate_traces(None, ctx, tw, pool, "Trace_Store.tla", "Trace_Store.cfg")
+    resL, covL = loader_leg(ctx, pool, scratch)
+    for k in ("violations",):
+        res[k] = res[k] + resL[k]
+    for k in ("states", "transitions", "traces"):
+        res[k] += resL[k]
     hist = core.event_histogram(tw)
     collisions = sum(1 for tr in tw.traces for e in tr if e.get("ev") == "Save" and e.get("outcome") == "raise")
     res["states"] += r.generated
@@ -67,11 +127,18 @@ def run(ctx, pool):
                 "one process model per kind on a built-in mixture, safe/unsafe), replayed in a scratch directory with the directory-name "
                 "clock pinned per abstract name; plus round trips of curves (from permeances or fluxes, molar or mass compositions, values "
                 "1e-9..1e3), permeance functions (binary, JSON) and conditions (JSON, optional fields None); distinct = distinct histories + curves",
-        "forced_collisions": collisions, "tlc_generated_histories": len(hs), "events": hist, "clauses": CLAUSES,
+        "forced_collisions": collisions, "tlc_generated_histories": len(hs), "events": hist, "clauses": CLAUSES, "membrane_directories": covL,
         "samples": [[{k: v for k, v in e.items() if k in ("ev", "model", "safe", "name", "outcome", "dirs_after")} for e in tw.traces[0][:5]]],
     }
     res["required_events"] = {k: hist.get(k, 0) for k in ("Save", "Load", "RTCurve", "RTFunction", "RTConditions")}
+    res["failures"] = list(resL.get("failures", []))
     if collisions == 0:
-        res["failures"] = ["vacuous: no forced directory-name collision occurred"]
+        res["failures"].append("vacuous: no forced directory-name collision occurred")
     res["trace_lookup"] = lambda v: [{k: x for k, x in v["record"].items() if k not in ("before", "after", "fields")}]
     return res
+
+
+def classify(v, kf):
+    if v["invariant"].startswith("Ref_"):
+        return ("drift", None)
+    return ("violation", None)
